@@ -441,3 +441,26 @@ fn c01_tuple_dec_16() {
     match r { Ok(t) => { assert!(t.0 == v[0] && t.1 == v[1] && t.2 == v[2] && t.3 == v[3] && t.4 == v[4] && t.5 == v[5] && t.6 == v[6] && t.7 == v[7] && t.8 == v[8] && t.9 == v[9] && t.10 == v[10] && t.11 == v[11] && t.12 == v[12] && t.13 == v[13] && t.14 == v[14] && t.15 == v[15]); assert!(d.position() == 17) } Err(_) => assert!(false) }
     kani::cover!(true);
 }
+
+// Kani mirror of the Verus contract of `type_len` (counterexample provider): every length / count / tag head written
+// through the public API is the preferred head of its argument, for all 2^64 arguments.
+// @harness name=c03_heads_pref props=C03,C01 kind=complete
+#[kani::proof]
+fn c03_heads_pref() {
+    let n: u64 = kani::any();
+    let which: u8 = kani::any();
+    let init: [u8; 12] = kani::any();
+    let mut e = Encoder::new(Cursor::new(init));
+    let (ok, major) = match which {
+        0 => (e.array(n).is_ok(), 4u8),
+        1 => (e.map(n).is_ok(), 5),
+        _ => (e.tag(crate::data::Tag::new(n)).is_ok(), 6),
+    };
+    assert!(ok);
+    let c = e.into_writer();
+    let m = c.position();
+    let buf = c.into_inner();
+    let (want, wn) = pref_head(major, n);
+    assert!(m == wn && prefix_eq(&buf[..], &want, wn), "head is not the RFC 8949 preferred (shortest) head of its argument");
+    kani::cover!(m == 5);
+}
